@@ -427,6 +427,170 @@ g_M = M;
 '''
 
 
+# ---------------------------------------------------------------- lookups and the checked wrapper
+POST_MACROS = r'''
+#define VALID_S_OF(first) (g_cS < g_ncls && g_pS < (first)[g_cS < NCLS ? g_cS : 0].nids)
+#define ID_S_OF(first) ((first)[g_cS < NCLS ? g_cS : 0].ids[g_pS < NIDS ? g_pS : 0])
+#define SFACT_OF(bp) (g_cellS_idx == g_hS && g_hS < (bp)->n && CELL(g_hS) == g_idS && g_hS <= hash_max)
+#define WITNESS_OF(first) (g_wc < g_ncls && g_wp < (first)[g_wc].nids && (first)[g_wc].ids[g_wp] == g_cellB)
+'''
+
+LOOKUPS = r'''
+vec_tid control;     /* checked_perfect_hash::control (Skolem array: size + observed cells) */
+
+/* fast_perfect_hash::hash_type_id.  Its value is by definition the multiply-shift of its body (lemma L1
+   ties it to the expression used when the table is built); the contract states purity and, for callers,
+   names the value through the uninterpreted mulshift so that no second 64x64 multiplier is needed. */
+#ifdef YV_FAST_AS_CONTRACT
+type_id fast_hash_type_id(type_id type)
+__CPROVER_assigns()
+__CPROVER_ensures(__CPROVER_return_value == __CPROVER_uninterpreted_mulshift(type, hash_mult, hash_shift))
+;
+#define FAST_VALUE(t) __CPROVER_uninterpreted_mulshift((t), hash_mult, hash_shift)
+#else
+type_id fast_hash_type_id(type_id type)
+__CPROVER_assigns()
+__CPROVER_ensures(hash_shift >= 1 && hash_shift < 64 ==> __CPROVER_return_value < ((size_t)1 << (64 - hash_shift)))
+{
+@FAST_BODY@
+}
+#define FAST_VALUE(t) fast_hash_type_id(t)
+#endif
+
+#undef YV_AT_ABORT
+#define YV_AT_ABORT __CPROVER_assert(g_err_calls == 1 && g_err_kind == YV_ERR_UNKNOWN_CLASS && g_err_type == type, \
+        "C15/C05 a rejected id is reported once as unknown_class_error carrying that id, before aborting"); \
+    __CPROVER_assert(FAST_VALUE(type) >= hash_length || FAST_VALUE(type) != g_B || g_cellB != type, \
+        "C05 only ids that fail the range / identity test are rejected")
+
+/* checked_perfect_hash::hash_type_id */
+type_id checked_hash_type_id(type_id type)
+__CPROVER_requires(control.n >= hash_length)             /* established by checked hash_initialize: control.size() == hash_length */
+__CPROVER_assigns(G, E)
+/* returns normally only for an id that passes the range and identity test */
+__CPROVER_ensures(__CPROVER_return_value == FAST_VALUE(type))
+__CPROVER_ensures(__CPROVER_return_value < hash_length)
+__CPROVER_ensures(__CPROVER_return_value == g_B ==> g_cellB == type)
+__CPROVER_ensures(g_err_calls == __CPROVER_old(g_err_calls) && g_cellB == __CPROVER_old(g_cellB))
+{
+@CHECKED_BODY@
+}
+
+void h_fast_lookup(void)
+{
+    hash_mult = nondet_uintptr(); hash_shift = nondet_size_t();
+    __CPROVER_assume(hash_shift < 64);
+    type_id t = nondet_uintptr();
+    type_id r = fast_hash_type_id(t);
+    YV_COVER(r == 3, "index 3");
+}
+
+void h_checked_lookup(void)
+{
+    hash_mult = nondet_uintptr(); hash_shift = nondet_size_t(); hash_length = nondet_size_t();
+    __CPROVER_assume(hash_shift < 64);
+    control.n = nondet_size_t();
+    g_B = nondet_size_t(); g_cellB = nondet_uintptr(); g_cellS = nondet_uintptr(); g_cellS_idx = nondet_size_t();
+    __CPROVER_assume(g_cellS_idx != g_B || 1);
+    g_err_calls = 0;
+    type_id t = nondet_uintptr();
+    type_id r = checked_hash_type_id(t);
+    YV_COVER(r == g_B, "accepted at the observed cell");
+    YV_COVER(r != g_B, "accepted elsewhere");
+}
+'''
+
+CHECKED_INIT = r'''
+vec_tid control;
+
+/* contract of fast_perfect_hash::hash_initialize(first, last, buckets) = the facts established by the
+   decomposed obligations (hi-pass-epilogue asserts exactly these on return) */
+void hash_initialize3(const yv_class *first, const yv_class *last, vec_tid *buckets_p)
+__CPROVER_requires(hash_max < ((size_t)1 << 62))
+__CPROVER_assigns(P, buckets_p->n, G, E)
+__CPROVER_ensures(g_validS == VALID_S_OF(first) && g_idS == ID_S_OF(first))
+__CPROVER_ensures(g_pm == hash_mult && g_ps == hash_shift)
+__CPROVER_ensures(g_M >= 1 && g_M <= 30 && hash_shift == 64 - g_M && buckets_p->n == ((size_t)1 << g_M))
+__CPROVER_ensures(hash_length == hash_max + 1 && hash_max >= __CPROVER_old(hash_max) && hash_max < ((size_t)1 << 62))
+__CPROVER_ensures(!(g_validS && g_idS != EMPTY) || SFACT_OF(buckets_p))
+__CPROVER_ensures(g_B < buckets_p->n ==> (g_cellB == EMPTY || WITNESS_OF(first)))
+__CPROVER_ensures(g_err_calls == __CPROVER_old(g_err_calls))
+;
+
+/* checked_perfect_hash::hash_initialize(first, last) */
+void checked_hash_initialize(const yv_class *first, const yv_class *last)
+__CPROVER_requires(__CPROVER_is_fresh(first, NCLS * sizeof(yv_class)) && g_ncls <= NCLS && last == first + g_ncls)
+__CPROVER_requires(hash_max < ((size_t)1 << 62))
+__CPROVER_assigns(P, control.n, G, E)
+/* C05 (checked): the control table has exactly hash_length entries */
+__CPROVER_ensures(control.n == hash_length && hash_length == hash_max + 1)
+__CPROVER_ensures(g_M >= 1 && g_M <= 30 && hash_shift == 64 - g_M)
+/* every registered id (Skolem) is found at its hashed index, inside the table */
+__CPROVER_ensures(!(g_validS && g_idS != EMPTY) || (SFACT_OF(&control) && g_hS < ((size_t)1 << g_M)))
+/* every entry (Skolem) is empty, a registered id, or - only beyond the 2^M indexes a lookup can produce - zero */
+__CPROVER_ensures(g_B < control.n ==> (g_cellB == EMPTY || WITNESS_OF(first) || (g_B >= ((size_t)1 << g_M) && g_cellB == 0)))
+__CPROVER_ensures(g_err_calls == __CPROVER_old(g_err_calls))
+{
+@CHECKED_INIT_BODY@
+}
+
+/* fast_perfect_hash::hash_initialize(first, last): a local vector is used */
+void fast_hash_initialize2(const yv_class *first, const yv_class *last)
+__CPROVER_requires(__CPROVER_is_fresh(first, NCLS * sizeof(yv_class)) && g_ncls <= NCLS && last == first + g_ncls)
+__CPROVER_requires(hash_max < ((size_t)1 << 62))
+__CPROVER_assigns(P, G, E)
+__CPROVER_ensures(g_M >= 1 && g_M <= 30 && hash_shift == 64 - g_M && hash_length == hash_max + 1)
+/* every registered id (Skolem) got its own index below 2^M, <= hash_max < hash_length */
+__CPROVER_ensures(!(g_validS && g_idS != EMPTY) || (g_pm == hash_mult && g_ps == hash_shift && g_hS < ((size_t)1 << g_M) && g_hS <= hash_max))
+__CPROVER_ensures(g_err_calls == __CPROVER_old(g_err_calls))
+{
+@FAST_INIT2_BODY@
+}
+
+static void havoc_statics(void)
+{
+    hash_mult = nondet_uintptr(); hash_shift = nondet_size_t(); hash_length = nondet_size_t();
+    hash_min = nondet_size_t(); hash_max = nondet_size_t();
+    g_cS = nondet_size_t(); g_pS = nondet_size_t(); g_B = nondet_size_t(); g_ncls = nondet_size_t();
+    g_cellS = nondet_uintptr(); g_cellB = nondet_uintptr(); g_cellS_idx = nondet_size_t();
+    control.n = nondet_size_t();
+    g_err_calls = 0;
+}
+void h_checked_init(void)
+{
+    havoc_statics();
+    const yv_class *first, *last;
+    checked_hash_initialize(first, last);
+    YV_COVER(hash_length > ((size_t)1 << g_M) && g_B >= ((size_t)1 << g_M) && g_B < control.n, "stale hash_max: zero padding beyond 2^M");
+    YV_COVER(hash_length < ((size_t)1 << g_M), "table shrunk to hash_length");
+    YV_COVER(g_validS && g_idS != EMPTY && g_B == g_hS, "observed entry holds the Skolem id");
+}
+void h_fast_init2(void)
+{
+    havoc_statics();
+    const yv_class *first, *last;
+    fast_hash_initialize2(first, last);
+    YV_COVER(g_validS && g_idS != EMPTY, "a registered id");
+}
+
+/* rejection lemma: what the checked lookup accepts is registered.  Facts = postconditions of
+   checked hash_initialize (at Skolem bucket B := the lookup's index) and of the checked lookup. */
+void h_rejection_lemma(void)
+{
+    size_t M = nondet_size_t(), hlen = nondet_size_t(), n = nondet_size_t(), B = nondet_size_t();
+    type_id cellB = nondet_uintptr(), t = nondet_uintptr(), widen = nondet_uintptr();
+    _Bool witness = nondet_bool();      /* "cellB is the id registered at (wc, wp)" */
+    __CPROVER_assume(M >= 1 && M <= 30 && n == hlen);
+    __CPROVER_assume(B < n ==> (cellB == EMPTY || witness || (B >= ((size_t)1 << M) && cellB == 0)));   /* checked init, clause 4 */
+    /* lookup returned normally with index B: */
+    __CPROVER_assume(B < hlen && cellB == t);
+    __CPROVER_assume(B < ((size_t)1 << M));                                                           /* L2 */
+    __CPROVER_assert(t == EMPTY || witness, "C05/C15 an id accepted by the checked lookup is a registered id (or the invalid id -1)");
+    YV_COVER(witness && t != EMPTY, "accepted");
+}
+'''
+
+
 def hash_expr_rule(min_count):
     """(a * b) >> hash_shift with one operand `hash_mult` -> YV_HASH(other)"""
     rx = re.compile(r'\(\s*(\w+)\s*\*\s*(\w+)\s*\)\s*>>\s*hash_shift\b')
@@ -592,8 +756,71 @@ HI_ASSUME = ['(type * hash_mult) >> hash_shift is an uninterpreted function insi
              'Skolemisation: the obligations are proved for an arbitrary registered id and an arbitrary bucket, hence for all']
 
 
-def jobs(tier):
+LOOKUP_RULES = [
+    X.split_auto_declarators,
+    X.Rule('fast_perfect_hash<Policy>::hash_type_id', r'fast_perfect_hash<Policy>::hash_type_id\(', 'fast_hash_type_id('),
+    X.Rule('fast_perfect_hash<Policy>::hash_length', r'fast_perfect_hash<Policy>::hash_length\b', 'hash_length'),
+    X.Rule('fast_perfect_hash<Policy>::hash_initialize', r'fast_perfect_hash<Policy>::hash_initialize\(\s*(\w+)\s*,\s*(\w+)\s*,\s*(\w+)\s*\)',
+           r'hash_initialize3(\1, \2, &\3)'),
+    X.Rule('hash_initialize(first, last, local)', r'(?<![\w:])hash_initialize\(\s*(\w+)\s*,\s*(\w+)\s*,\s*(\w+)\s*\)', r'hash_initialize3(\1, \2, &\3)'),
+    X.Rule('std::vector<type_id> local', r'std::vector<type_id>\s+(\w+)\s*;', r'vec_tid \1; \1.n = 0;'),
+    X.Rule('control[i]', r'\bcontrol\[(\w+)\]', r'(*yv_bucket(&control, \1))'),
+    X.method_call(r'\bcontrol', 'resize', lambda o, a: 'vec_tid_resize(&%s, %s, %s)' % (o, a[0], '(type_id)(%s)' % a[1] if len(a) > 1 else '0'), 'vector.resize'),
+    X.Rule('if constexpr error_handler', r'if\s+constexpr\s*\(\s*Policy::template\s+has_facet<error_handler>\s*\)', 'if (YV_HAS_ERROR_HANDLER)'),
+    X.Rule('unknown_class_error::update', r'unknown_class_error::update\b', 'unknown_class_error_update'),
+    X.Rule('Policy::error(e)', r'Policy::error\((\w+)\)\s*;', r'YV_POLICY_ERROR(\1);'),
+    X.Rule('abort()', r'\babort\(\)\s*;', 'yv_abort();'),
+] + X.COMMON_RULES
+
+
+def lookup_jobs():
     out = []
+    exf = fast_lookup()
+    X.apply_rules(exf, X.COMMON_RULES)
+    exc = X.find_function(REL, r'hash_type_id\s*\(\s*type_id\s+type\s*\)', 1)
+    X.apply_rules(exc, LOOKUP_RULES)
+    clean('checked hash_type_id', exc.body)
+    c = STATICS + GHOST + LOOKUPS.replace('@FAST_BODY@', exf.body).replace('@CHECKED_BODY@', exc.body)
+    fd = ['%s fast_perfect_hash::hash_type_id sha256:%s' % (exf.where(), exf.sha()),
+          '%s checked_perfect_hash::hash_type_id sha256:%s' % (exc.where(), exc.sha())]
+    tr = ['Policy statics as globals; the control vector as a Skolem array (size + observed cell, every index bounds-checked)',
+          'Policy::error as a logging stub; abort() ends the execution after the abort-point obligations']
+    out.append(Job(unit='hashing', config='fast_lookup', c_text=c, entry='h_fast_lookup', enforce='fast_hash_type_id', kind='proof',
+                   min_obligations=2, min_cover=1, functions=fd[:1], trusted=tr[:1], extracted=[exf],
+                   assumptions=['hash_shift < 64 (installed by hash_initialize: 64 - M, M >= 1)'],
+                   props=['C05', 'C01', 'C16'], timeout=300))
+    out.append(Job(unit='hashing', config='checked_lookup', c_text=c, entry='h_checked_lookup', enforce='checked_hash_type_id', kind='proof',
+                   replace=['fast_hash_type_id'], defines=['YV_FAST_AS_CONTRACT=1'],
+                   min_obligations=6, min_cover=2, functions=fd, trusted=tr, extracted=[exc],
+                   assumptions=['control.size() >= hash_length (postcondition of checked hash_initialize)'],
+                   props=['C05', 'C15', 'C16'], timeout=300))
+    # checked / fast two-argument hash_initialize on top of the three-argument one's contract
+    exi = X.find_function(REL, r'static\s+void\s+hash_initialize\s*\(\s*ForwardIterator\s+first,\s*ForwardIterator\s+last\s*\)', 1)
+    X.apply_rules(exi, LOOKUP_RULES)
+    clean('checked hash_initialize', exi.body)
+    exi2 = X.find_function(REL, r'static\s+void\s+hash_initialize\s*\(\s*ForwardIterator\s+first,\s*ForwardIterator\s+last\s*\)', 0)
+    X.apply_rules(exi2, LOOKUP_RULES)
+    clean('fast hash_initialize(first, last)', exi2.body)
+    c2 = (STATICS + GHOST + POST_MACROS +
+          CHECKED_INIT.replace('@CHECKED_INIT_BODY@', exi.body).replace('@FAST_INIT2_BODY@', exi2.body))
+    fd2 = ['%s checked_perfect_hash::hash_initialize(first, last) sha256:%s' % (exi.where(), exi.sha()),
+           '%s fast_perfect_hash::hash_initialize(first, last) sha256:%s' % (exi2.where(), exi2.sha())]
+    tr2 = ['hash_initialize(first, last, buckets) replaced by its contract (the facts the decomposed obligations hi-* establish on return)',
+           'std::vector<type_id>::resize per [vector.capacity] on the Skolem array']
+    out.append(Job(unit='hashing', config='checked_initialize', c_text=c2, entry='h_checked_init', enforce='checked_hash_initialize',
+                   replace=['hash_initialize3'], kind='proof', min_obligations=8, min_cover=3, functions=fd2[:1], trusted=tr2,
+                   extracted=[exi], assumptions=HI_ASSUME[1:3], props=['C05', 'C07', 'C15'], timeout=600))
+    out.append(Job(unit='hashing', config='fast_initialize2', c_text=c2, entry='h_fast_init2', enforce='fast_hash_initialize2',
+                   replace=['hash_initialize3'], kind='proof', min_obligations=6, min_cover=1, functions=fd2[1:], trusted=tr2,
+                   extracted=[exi2], assumptions=HI_ASSUME[1:3], props=['C05', 'C07'], timeout=600))
+    out.append(Job(unit='hashing', config='rejection-lemma', c_text=c2, entry='h_rejection_lemma', kind='proof',
+                   min_obligations=1, min_cover=1, props=['C05', 'C15'],
+                   note='lemma over the postconditions of checked hash_initialize and the checked lookup (no repository code)'))
+    return out
+
+
+def jobs(tier):
+    out = lookup_jobs()
     # ---------------- lemmas (concrete arithmetic, original expressions)
     exb, build_expr = build_expr_original()
     exl = fast_lookup()
